@@ -141,7 +141,10 @@ func findClosest(query fastaio.EncodedFastaRecord, measure string, cIn chan fast
 			distance = tn93Distance(query, target)
 		}
 
-		if first {
+		// the first target is the closest so far, and so is the first one with a defined distance, if
+		// all we have so far is one whose distance is undefined (NaN: no site resolved in both): NaN
+		// compares false with everything, so it would otherwise never be replaced
+		if first || (math.IsNaN(closest.distance) && !math.IsNaN(distance)) {
 			snps = make([]string, 0)
 			for i, tNuc := range target.Seq {
 				if (query.Seq[i] & tNuc) < 16 {
